@@ -40,7 +40,7 @@ func init() {
 			// two-call histories from the empty cache: storing call, clock advance, any call (symbolic selector)
 			for _, first := range []int{0, 1, 6, 7, 9, 10} {
 				is = append(is, eng.Instance{Name: fmt.Sprintf("C01/Cache/hist2/%s;*", cacheOps[first]), Pkg: "cache", Func: "VxH_C01_hist2", Args: []int64{int64(first)},
-					Cfg: eng.Config{DefaultUnwind: 6, NoResize: map[int]bool{0: true, 1: true}}})
+					Cfg: eng.Config{DefaultUnwind: 6, NoResizeCall: map[int]bool{0: true, 1: true}}})
 			}
 			return withOf(is)
 		},
@@ -82,7 +82,7 @@ func mapStepInstances(prefix, fn string, shapes []shape, ops []int) []eng.Instan
 			is = append(is, eng.Instance{
 				Name: fmt.Sprintf("%s/S(len=%d,chain=%d,min=%d,mode=%d)/%s", prefix, sh.tableLen, sh.chain, sh.minLen, sh.mode, mapOps[op]),
 				Pkg:  "xsync", Func: fn, Args: []int64{int64(op), int64(sh.tableLen), int64(sh.chain), int64(sh.minLen), 0},
-				Cfg: eng.Config{DefaultUnwind: 8, NoResize: noResize(sh.mode)},
+				Cfg: eng.Config{DefaultUnwind: 8, NoResizeCall: noResize(sh.mode)},
 			})
 		}
 	}
@@ -255,7 +255,7 @@ func mapOfStepInstances(prefix, fn string, sh [][5]int, ops []int) []eng.Instanc
 			tag := ""
 			if x[0] > 1 || x[1] > 1 {
 				// multi-bucket shapes: executions that request a grow are outside the instance
-				cfg.NoResize = map[int]bool{0: true}
+				cfg.NoResizeCall = map[int]bool{0: true}
 				tag = ",nogrow"
 			}
 			is = append(is, eng.Instance{
@@ -298,7 +298,7 @@ func noResize(mode int) map[int]bool {
 	if mode == 1 {
 		return map[int]bool{0: true}
 	}
-	return nil
+	return nil // (applied at the call, see mapStepInstances)
 }
 
 // ---------------------------------------------------------------- concurrency specs
@@ -306,7 +306,14 @@ func noResize(mode int) map[int]bool {
 var parOps = []int{0, 1, 2, 3, 4, 5, 6, 7} // Load Store LoadOrStore LoadAndStore LoadOrCompute Compute LoadAndDelete Delete
 
 func parCfg(rounds int) eng.Config {
-	return eng.Config{DefaultUnwind: 2, Rounds: rounds, NoResize: map[int]bool{0: true, 1: true}}
+	return eng.Config{DefaultUnwind: 2, Rounds: rounds, NoResizeCall: map[int]bool{0: true, 1: true}}
+}
+
+// parCfgShrinkReq: a delete that empties a bucket may *request* a shrink (the
+// request returns early on a table at its minimum size); only an actual
+// rebuild is outside. Needed for delete-then-insert slot reuse.
+func parCfgShrinkReq(rounds int) eng.Config {
+	return eng.Config{DefaultUnwind: 2, Rounds: rounds, NoResizeCall: map[int]bool{0: true}, NoResize: map[int]bool{1: true}}
 }
 
 func mapPar2(prefix, fn string, pairs [][2]int, extra []int64, rounds int) []eng.Instance {
@@ -339,8 +346,8 @@ func init() {
 		Quick: func() []eng.Instance {
 			is := mapPar2("C03/Map/par2", "VxH_Map_par2", quickPairs, []int64{1, 1, 1, 1}, 2)
 			is = append(is,
-				eng.Instance{Name: "C03/Map/par12/Load||Delete;Store", Pkg: "xsync", Func: "VxH_Map_par12", Args: []int64{0, 7, 1, 1, 1, 1, 1}, Cfg: parCfg(2)},
-				eng.Instance{Name: "C03/Map/par12/Load||Store;Delete", Pkg: "xsync", Func: "VxH_Map_par12", Args: []int64{0, 1, 7, 1, 1, 1, 1}, Cfg: parCfg(2)},
+				eng.Instance{Name: "C03/Map/par12/Load||Delete;Store", Pkg: "xsync", Func: "VxH_Map_par12", Args: []int64{0, 7, 1, 1, 1, 1, 1}, Cfg: parCfgShrinkReq(2)},
+				eng.Instance{Name: "C03/Map/par12/Load||Store;Delete", Pkg: "xsync", Func: "VxH_Map_par12", Args: []int64{0, 1, 7, 1, 1, 1, 1}, Cfg: parCfgShrinkReq(2)},
 			)
 			return is
 		},
@@ -349,7 +356,7 @@ func init() {
 			is = append(is, mapPar2("C03/Map/par2+Clear", "VxH_Map_par2", [][2]int{{8, 0}, {8, 1}, {8, 7}, {8, 8}}, []int64{1, 1, 1, 1}, 2)...)
 			for _, t := range [][3]int{{0, 7, 1}, {0, 1, 7}, {0, 1, 1}, {2, 7, 1}, {6, 1, 7}} {
 				is = append(is, eng.Instance{Name: fmt.Sprintf("C03/Map/par12/%s||%s;%s", mapOps[t[0]], mapOps[t[1]], mapOps[t[2]]), Pkg: "xsync", Func: "VxH_Map_par12",
-					Args: []int64{int64(t[0]), int64(t[1]), int64(t[2]), 1, 1, 1, 1}, Cfg: parCfg(2)})
+					Args: []int64{int64(t[0]), int64(t[1]), int64(t[2]), 1, 1, 1, 1}, Cfg: parCfgShrinkReq(2)})
 			}
 			return is
 		},
@@ -362,7 +369,7 @@ func init() {
 		Outside:   []string{"as C03"},
 		Quick: func() []eng.Instance {
 			is := mapPar2("C04/MapOf/par2", "VxH_MapOf_par2", quickPairs, []int64{1, 1, 1, 1, 2}, 2)
-			is = append(is, eng.Instance{Name: "C04/MapOf/par12/Load||Delete;Store", Pkg: "xsync", Func: "VxH_MapOf_par12", Args: []int64{0, 7, 1, 1, 1, 1, 1, 2}, Cfg: parCfg(2)})
+			is = append(is, eng.Instance{Name: "C04/MapOf/par12/Load||Delete;Store", Pkg: "xsync", Func: "VxH_MapOf_par12", Args: []int64{0, 7, 1, 1, 1, 1, 1, 2}, Cfg: parCfgShrinkReq(2)})
 			return is
 		},
 		Thorough: func() []eng.Instance {
@@ -442,7 +449,7 @@ func init() {
 				}
 				args := append([]int64{int64(w), int64(r)}, extra...)
 				is = append(is, eng.Instance{Name: fmt.Sprintf("%s/writer=%s/reader=%s", prefix, mapOps[w], mapOps[r]), Pkg: "xsync", Func: fn, Args: args,
-					Cfg: eng.Config{DefaultUnwind: 9, Rounds: 1, NoResize: map[int]bool{0: true, 1: true}}})
+					Cfg: eng.Config{DefaultUnwind: 9, Rounds: 1, NoResizeCall: map[int]bool{0: true, 1: true}}})
 			}
 		}
 		return is
@@ -452,10 +459,31 @@ func init() {
 		Technique: "bounded symbolic execution with a symbolic stall point: the writer's go/ssa code runs a free-length prefix of its visible operations (incl. a yield inside its user function, i.e. while holding the bucket lock), then the reader runs alone; any disabled blocking operation or spin of the reader is a violation; result must be the value before or after the writer's operation",
 		Bounds:    map[string]interface{}{"writer_prefix": "any number of visible operations (symbolic)", "table": "1 root bucket, <=2 pre-state entries", "readers": "Load, LoadOrStore hit path, Size", "unwind": 3},
 		Stubs:     commonStubs,
-		Outside:   []string{"writers in the middle of a grow/shrink copy (Clear is included)", "cache-level Get/GetWithTTL (same Load underneath; see DESIGN.md)"},
+		Outside:   []string{"writers in the middle of a grow/shrink copy (Clear is included)", "writers in the middle of a table copy"},
 		Quick: func() []eng.Instance {
 			is := stalled("C16/Map", "VxH_Map_stalled", []int64{1, 1, 1, 2})
 			is = append(is, stalled("C16/MapOf", "VxH_MapOf_stalled", []int64{1, 1, 1, 2, 2})...)
+			// cache level on the real stack
+			idx := func(n string) int64 {
+				for i, c := range cacheOps {
+					if c == n {
+						return int64(i)
+					}
+				}
+				panic(n)
+			}
+			var cs []eng.Instance
+			for _, w := range []string{"GetOrCompute", "Compute", "Set", "Delete"} {
+				for _, r := range []string{"Get", "GetWithTTL", "GetWithExpiration", "Clear"} {
+					rn := r
+					if r == "Clear" {
+						rn = "Count"
+					}
+					cs = append(cs, eng.Instance{Name: fmt.Sprintf("C16/Cache/writer=%s/reader=%s", w, rn), Pkg: "cache", Func: "VxH_C16_cache",
+						Args: []int64{idx(w), idx(r)}, Cfg: eng.Config{DefaultUnwind: 9, Rounds: 1, NoResizeCall: map[int]bool{0: true, 1: true}}})
+				}
+			}
+			is = append(is, withOf(cs)...)
 			return is
 		},
 	})
@@ -508,7 +536,7 @@ func init() {
 }
 
 func raceCfg() eng.Config {
-	return eng.Config{DefaultUnwind: 2, Rounds: 2, Race: true, NoResize: map[int]bool{0: true, 1: true}}
+	return eng.Config{DefaultUnwind: 2, Rounds: 2, Race: true, NoResizeCall: map[int]bool{0: true, 1: true}}
 }
 
 func init() {
@@ -530,7 +558,7 @@ func init() {
 			is = append(is, eng.Instance{Name: "C14/Map/publish", Pkg: "xsync", Func: "VxH_Map_publish", Args: []int64{1}, Cfg: raceCfg()})
 			// overflow-bucket append racing with the lock-free reader (full root bucket, table below the grow threshold)
 			is = append(is, eng.Instance{Name: "C14/MapOf/race/Load||Store(full bucket)", Pkg: "xsync", Func: "VxH_MapOf_race",
-				Args: []int64{0, 1, 2, 1, 2, -1, -5, 0}, Cfg: eng.Config{DefaultUnwind: 6, Rounds: 2, Race: true, NoResize: map[int]bool{0: true, 1: true}}})
+				Args: []int64{0, 1, 2, 1, 2, 19, -5, 0}, Cfg: eng.Config{DefaultUnwind: 6, Rounds: 2, Race: true, NoResizeCall: map[int]bool{0: true, 1: true}}})
 			var cs []eng.Instance
 			names := []string{"SetDefaultExpiration", "SetEvictedCallback", "Set(default)", "GetAndDelete", "DeleteExpired", "DefaultExpiration()", "EvictedCallback()", "Get"}
 			for _, p := range [][2]int{{0, 2}, {0, 5}, {0, 0}, {1, 3}, {1, 4}, {1, 6}, {1, 1}} {
